@@ -1,0 +1,13 @@
+//go:build verif
+
+package streams
+
+import (
+	publictypes "lunar/engine/streams/public-types"
+)
+
+// VerifQuota exposes a quota resource of the engine to the verification harness
+// (used to drive QuotaResourceI.ResetIn, which no request path reaches).
+func (s *Stream) VerifQuota(quotaID string) (publictypes.QuotaResourceI, error) {
+	return s.resources.GetQuota(quotaID, "")
+}
